@@ -35,6 +35,7 @@ type CoreInput struct {
 	FinalSync  bool        `json:"final_sync"` // after the last step, sync everyone to everything and compare pairwise
 	Keys       []string    `json:"keys"`
 	Vals       []string    `json:"vals"`
+	BigVal     string      `json:"big_val"` // C13: this abstract value stands for an oversize payload
 }
 
 // concretiser: abstract keys / values -> concrete strings and bytes
@@ -50,7 +51,7 @@ var keyClasses = [][]string{
 	{"k", "K", "kk", "Kk"},
 }
 
-func newConcr(keys, vals []string, stype string, rng *rand.Rand) *concr {
+func newConcr(keys, vals []string, stype string, rng *rand.Rand, big ...string) *concr {
 	c := &concr{key: map[string]string{}, val: map[string][]byte{}}
 	cls := keyClasses[rng.Intn(len(keyClasses))]
 	perm := rng.Perm(len(cls))
@@ -60,7 +61,26 @@ func newConcr(keys, vals []string, stype string, rng *rand.Rand) *concr {
 	if stype == "kv" && rng.Intn(3) == 0 && len(keys) > 0 {
 		c.key[keys[rng.Intn(len(keys))]] = "with space and \x00 nul"
 	}
+	oversize := rng.Intn(3) == 0 // one behaviour in three carries payloads beyond the record limit
 	for i, v := range vals {
+		if len(big) > 0 && big[0] == v && oversize {
+			sizes := []int{37000, 40000, 70000, 300000}
+			b := make([]byte, sizes[rng.Intn(len(sizes))])
+			rng.Read(b)
+			c.val[v] = b
+			continue
+		}
+		if len(big) > 0 && big[0] != "" && rng.Intn(2) == 0 {
+			// large but representable payloads next to the oversize ones
+			sizes := []int{0, 1, 20000, 34000}
+			b := make([]byte, sizes[rng.Intn(len(sizes))])
+			rng.Read(b)
+			if len(b) > 0 {
+				b[0] = byte(i)
+			}
+			c.val[v] = b
+			continue
+		}
 		switch rng.Intn(3) {
 		case 0:
 			c.val[v] = []byte(fmt.Sprintf("value-%d", i))
@@ -496,7 +516,7 @@ func coreCmd(args []string) int {
 	seen := map[string]bool{}
 	for bi, b := range in.Behaviours {
 		rng := rand.New(rand.NewSource(in.Seed*1000003 + int64(bi)))
-		run := &coreRun{in: in, res: res, bid: b.ID, prev: map[string][]int{}, cc: newConcr(in.Keys, in.Vals, in.Type, rng)}
+		run := &coreRun{in: in, res: res, bid: b.ID, prev: map[string][]int{}, cc: newConcr(in.Keys, in.Vals, in.Type, rng, in.BigVal)}
 		c, err := newCluster(in.Replicas, in.Type, fmt.Sprintf("b%d", bi))
 		if err != nil {
 			res.Inconclusive = append(res.Inconclusive, b.ID+": setup: "+err.Error())
@@ -520,6 +540,9 @@ func coreCmd(args []string) int {
 		}
 		if in.LoadLimits {
 			run.loadLimits()
+		}
+		if in.Snapshots {
+			run.snapshots()
 		}
 		if in.FinalSync {
 			run.finalSync()
